@@ -34,6 +34,8 @@ const FAULT_EXIT: u32 = 7;
 const PROBE_SEQ: u64 = 1_000_000;
 /// scripted: a transaction with three approvals whose first approver is removed, then cancel attempts
 const PURGE_SEQ: u64 = 1_000_001;
+/// the same script with the signer named by its key address in RemoveSigner / SwapSigner / AddSigner
+const PURGE_KEY_SEQ: u64 = 1_000_002;
 
 fn atto(n: i64) -> TokenAmount {
     TokenAmount::from_atto(n)
@@ -49,6 +51,10 @@ struct Env {
     wallets: RefCell<Vec<u64>>,
     /// (target, method, parameter bytes) -> flat integer encoding used on the model side
     reg: RefCell<HashMap<(u64, u64, Vec<u8>), Vec<i64>>>,
+    /// id -> key (robust) address of the accounts
+    keys: HashMap<u64, Address>,
+    /// signer-management parameters name accounts by their key address (the actor resolves them)
+    key_form: bool,
 }
 
 impl Env {
@@ -76,6 +82,8 @@ impl Env {
             return generic();
         }
         let idaddr = |x: i64| Address::new_id(x as u64);
+        // signer named by key address when the sequence asks for it (same flat encoding on the model side)
+        let saddr = |x: i64| if self.key_form { self.keys.get(&(x as u64)).cloned().unwrap_or(Address::new_id(x as u64)) } else { Address::new_id(x as u64) };
         match method {
             2 => {
                 if list.len() >= 3 && list[0] >= 0 && list[2] >= 0 {
@@ -101,21 +109,21 @@ impl Env {
             }
             5 => {
                 if list.len() == 2 && list[0] >= 0 && (list[1] == 0 || list[1] == 1) {
-                    RawBytes::serialize(&AddSignerParams { signer: idaddr(list[0]), increase: list[1] == 1 }).unwrap()
+                    RawBytes::serialize(&AddSignerParams { signer: saddr(list[0]), increase: list[1] == 1 }).unwrap()
                 } else {
                     garbage()
                 }
             }
             6 => {
                 if list.len() == 2 && list[0] >= 0 && (list[1] == 0 || list[1] == 1) {
-                    RawBytes::serialize(&RemoveSignerParams { signer: idaddr(list[0]), decrease: list[1] == 1 }).unwrap()
+                    RawBytes::serialize(&RemoveSignerParams { signer: saddr(list[0]), decrease: list[1] == 1 }).unwrap()
                 } else {
                     garbage()
                 }
             }
             7 => {
                 if list.len() == 2 && list[0] >= 0 && list[1] >= 0 {
-                    RawBytes::serialize(&SwapSignerParams { from: idaddr(list[0]), to: idaddr(list[1]) }).unwrap()
+                    RawBytes::serialize(&SwapSignerParams { from: saddr(list[0]), to: saddr(list[1]) }).unwrap()
                 } else {
                     garbage()
                 }
@@ -164,8 +172,13 @@ fn commas(xs: &[String]) -> String {
     if xs.is_empty() { "-".into() } else { xs.join(",") }
 }
 
+thread_local! {
+    /// key (robust) address -> id of the accounts of the current sequence (what the actor's
+    /// `resolve_to_actor_id` would answer)
+    static KEY_TO_ID: RefCell<HashMap<Address, u64>> = RefCell::new(HashMap::new());
+}
 fn to_id(a: &Address) -> Option<u64> {
-    a.id().ok()
+    a.id().ok().or_else(|| KEY_TO_ID.with(|m| m.borrow().get(a).cloned()))
 }
 fn pbytes(p: &Option<IpldBlock>) -> Vec<u8> {
     p.as_ref().map(|b| b.data.clone()).unwrap_or_default()
@@ -1206,7 +1219,7 @@ pub fn run(cfg: &RunCfg) -> Report {
     let nseq = nseq * cfg.budget;
     let mut lean = if cfg.use_lean { Some(LeanDriver::spawn("multisig").expect("lean driver")) } else { None };
     let mut seen = HashSet::new();
-    let seqs: Vec<u64> = match cfg.only_seq { Some(k) => vec![k], None => [PROBE_SEQ, PURGE_SEQ].into_iter().chain(0..nseq).collect() };
+    let seqs: Vec<u64> = match cfg.only_seq { Some(k) => vec![k], None => [PROBE_SEQ, PURGE_SEQ, PURGE_KEY_SEQ].into_iter().chain(0..nseq).collect() };
     let mut tot_sends = 0u64;
     let mut tot_reentrant = 0u64;
     let mut tot_failed = 0u64;
@@ -1214,8 +1227,12 @@ pub fn run(cfg: &RunCfg) -> Report {
         let mut r = seq_rng(cfg.seed, seq);
         let w = World::new(false);
         let probe = seq == PROBE_SEQ;
-        let accts: Vec<Address> = w.create_accounts(if probe { 258 } else { 6 }, 1212, &TokenAmount::from_whole(1000)).into_iter().map(|x| x.0).collect();
-        let e = Env { w, accts, wallets: RefCell::new(vec![]), reg: RefCell::new(HashMap::new()) };
+        let pairs = w.create_accounts(if probe { 258 } else { 6 }, 1212, &TokenAmount::from_whole(1000));
+        let keys: HashMap<u64, Address> = pairs.iter().map(|x| (x.0.id().unwrap(), x.1)).collect();
+        let accts: Vec<Address> = pairs.into_iter().map(|x| x.0).collect();
+        KEY_TO_ID.with(|m| *m.borrow_mut() = keys.iter().map(|(k, v)| (*v, *k)).collect());
+        let key_form = seq == PURGE_KEY_SEQ || (seq < PROBE_SEQ && seq % 3 == 1);
+        let e = Env { w, accts, wallets: RefCell::new(vec![]), reg: RefCell::new(HashMap::new()), keys, key_form };
         let mut s = Seq { e, oracle: Oracle::default(), lean: lean.as_mut(), lines: vec![], epoch: r.range(0, 30), applied_sends: 0 };
         s.e.w.vm.set_epoch(s.epoch);
         s.lines.push(format!("# epoch {}", s.epoch));
@@ -1244,7 +1261,7 @@ pub fn run(cfg: &RunCfg) -> Report {
                 s.deliver(&m, None, &mut rep)?;
             }
             Ok(())
-        })() } else if seq == PURGE_SEQ { (|| {
+        })() } else if seq == PURGE_SEQ || seq == PURGE_KEY_SEQ { (|| {
             // ---- 4-of-5 wallet; tx0 proposed by signer 0 and approved by signers 1 and 2 stays pending;
             // tx1 removes signer 0 (or swaps it out) and reaches its quorum; afterwards the earliest
             // remaining approver of tx0 is signer 1: signer 2 must not be able to cancel it, signer 1 must.
